@@ -161,10 +161,15 @@ func (r *Reader) parseSlides() error {
 		}
 	}
 
-	// Sort slides by number
-	sort.Slice(slideFiles, func(i, j int) bool {
-		return extractSlideNumber(slideFiles[i]) < extractSlideNumber(slideFiles[j])
-	})
+	if declared := r.declaredSlideFiles(); len(declared) > 0 {
+		// The presentation's slide list defines which slides exist and their order
+		slideFiles = declared
+	} else {
+		// No usable slide list: fall back to the number in the file name
+		sort.Slice(slideFiles, func(i, j int) bool {
+			return extractSlideNumber(slideFiles[i]) < extractSlideNumber(slideFiles[j])
+		})
+	}
 
 	r.slides = make([]*Slide, 0, len(slideFiles))
 
@@ -188,6 +193,34 @@ func (r *Reader) parseSlides() error {
 	}
 
 	return nil
+}
+
+// declaredSlideFiles returns the slide parts in the order of the presentation's
+// slide list (p:sldIdLst), resolved through the presentation relationships.
+// It returns nil when the list is absent or cannot be resolved.
+func (r *Reader) declaredSlideFiles() []string {
+	if r.presentation == nil || r.presentation.SlideIdList == nil || r.presRels == nil {
+		return nil
+	}
+
+	targets := make(map[string]string, len(r.presRels.Relationship))
+	for _, rel := range r.presRels.Relationship {
+		targets[rel.ID] = rel.Target
+	}
+
+	files := make([]string, 0, len(r.presentation.SlideIdList.SlideId))
+	for _, sld := range r.presentation.SlideIdList.SlideId {
+		target, ok := targets[sld.RID]
+		if !ok {
+			return nil
+		}
+		if strings.HasPrefix(target, "/") {
+			files = append(files, strings.TrimPrefix(target, "/"))
+		} else {
+			files = append(files, path.Join("ppt", target))
+		}
+	}
+	return files
 }
 
 // extractSlideNumber extracts the slide number from a path like "ppt/slides/slide1.xml"
